@@ -47,47 +47,117 @@ Proof.
     + destruct (IH i) as [H|H]; [left; exact H | right; right; exact H].
 Qed.
 
-Definition redir_ok (p : chain) (l : layer) : Prop :=
+(* what the parent chain makes of an index before the layer's own redirect is applied *)
+Definition pre (p : chain) (i : nat) : nat := if i <? size p then resolve p i else i.
+
+Lemma resolve_cons : forall l p i, resolve (l :: p) i = redir_get (l_redir l) (pre p i).
+Proof. reflexivity. Qed.
+
+Lemma get_node_cons : forall l p i,
+  get_node (l :: p) i = if resolve (l :: p) i <? size p then get_node p (resolve (l :: p) i)
+                        else nth (resolve (l :: p) i - size p) (l_nodes l) NEmpty.
+Proof. reflexivity. Qed.
+
+Definition redir_ok1 (p : chain) (l : layer) : Prop :=
   forall k v, In (k, v) (l_redir l) -> k < size p /\ size p <= v < size (l :: p).
+
+(* every layer of the chain keeps its redirect keys below its offset and its values in its own range *)
+Fixpoint chain_ok (c : chain) : Prop :=
+  match c with [] => True | l :: p => redir_ok1 p l /\ chain_ok p end.
+
+Definition redir_ok (p : chain) (l : layer) : Prop := redir_ok1 p l /\ chain_ok p.
 
 Lemma redir_get_ge : forall p l i, redir_ok p l -> size p <= i -> redir_get (l_redir l) i = i.
 Proof.
   intros p l i H Hi. destruct (redir_get_cases (l_redir l) i) as [E|E]; [exact E|].
-  apply H in E. lia.
+  apply (proj1 H) in E. lia.
 Qed.
 
 Lemma redir_get_lt : forall p l i, redir_ok p l -> i < size (l :: p) -> redir_get (l_redir l) i < size (l :: p).
 Proof.
   intros p l i H Hi. destruct (redir_get_cases (l_redir l) i) as [E|E]; [rewrite E; exact Hi|].
-  apply H in E. lia.
+  apply (proj1 H) in E. lia.
+Qed.
+
+Lemma pre_ge : forall p i, size p <= i -> pre p i = i.
+Proof. intros p i H. unfold pre. destruct (Nat.ltb_spec i (size p)); [lia|reflexivity]. Qed.
+
+Lemma resolve_lt : forall c i, chain_ok c -> i < size c -> resolve c i < size c.
+Proof.
+  induction c as [|l p IH]; intros i H Hi; [simpl in Hi; lia|]. destruct H as [H1 H2].
+  rewrite resolve_cons.
+  assert (Hp : pre p i < size (l :: p)).
+  { unfold pre. destruct (Nat.ltb_spec i (size p)) as [Hlt|Hge]; [|exact Hi].
+    specialize (IH i H2 Hlt). simpl. lia. }
+  destruct (redir_get_cases (l_redir l) (pre p i)) as [E|E]; [rewrite E; exact Hp|].
+  apply H1 in E. lia.
+Qed.
+
+Lemma pre_lt : forall p i, chain_ok p -> i < size p -> pre p i < size p.
+Proof.
+  intros p i H Hi. unfold pre. destruct (Nat.ltb_spec i (size p)); [|lia]. apply resolve_lt; assumption.
+Qed.
+
+Lemma resolve_ge : forall c i, chain_ok c -> size c <= i -> resolve c i = i.
+Proof.
+  intros [|l p] i H Hi; [reflexivity|]. rewrite resolve_cons, pre_ge by (simpl in Hi; lia).
+  apply (redir_get_ge p l); [exact H|simpl in Hi; lia].
+Qed.
+
+Lemma pre_resolve : forall c i, chain_ok c -> pre c i = resolve c i.
+Proof.
+  intros c i H. unfold pre. destruct (Nat.ltb_spec i (size c)); [reflexivity|].
+  symmetry. apply resolve_ge; assumption.
+Qed.
+
+Lemma resolve_idem : forall c i, chain_ok c -> resolve c (resolve c i) = resolve c i.
+Proof.
+  induction c as [|l p IH]; intros i H; [reflexivity|]. pose proof H as H0. destruct H as [H1 H2].
+  rewrite !resolve_cons. set (r := redir_get (l_redir l) (pre p i)).
+  destruct (redir_get_cases (l_redir l) (pre p i)) as [E|E]; fold r in E.
+  - assert (Hpp : pre p (pre p i) = pre p i).
+    { rewrite !(pre_resolve p) by exact H2. apply IH. exact H2. }
+    replace (pre p r) with (pre p i) by (rewrite E; symmetry; exact Hpp). reflexivity.
+  - apply H1 in E. rewrite pre_ge by lia. apply (redir_get_ge p l); [exact H0|lia].
+Qed.
+
+Lemma get_node_resolve : forall c i, chain_ok c -> get_node c (resolve c i) = get_node c i.
+Proof.
+  intros [|l p] i H; [reflexivity|]. rewrite !get_node_cons, resolve_idem by exact H. reflexivity.
+Qed.
+
+Lemma get_node_same_res : forall c j n, chain_ok c -> resolve c j = n -> get_node c j = get_node c n.
+Proof.
+  intros c j n H E. rewrite <- (get_node_resolve c j H), E. reflexivity.
 Qed.
 
 (* ------------------------------------------------------------------ get_node after the primitive writes *)
 Lemma get_node_beyond : forall p l i, redir_ok p l -> size (l :: p) <= i -> get_node (l :: p) i = NEmpty.
 Proof.
-  intros p l i H Hi. simpl in *. rewrite (redir_get_ge p l i H) by lia.
-  destruct (Nat.ltb_spec i (size p)); [lia|]. apply nth_overflow. lia.
+  intros p l i H Hi. rewrite get_node_cons, (resolve_ge (l :: p)) by assumption.
+  simpl in Hi. destruct (Nat.ltb_spec i (size p)); [lia|]. apply nth_overflow. lia.
 Qed.
 
 Lemma get_node_app : forall p l n i, redir_ok p l ->
   get_node (fst (app_node p l n) :: p) i = if i =? size (l :: p) then n else get_node (l :: p) i.
 Proof.
-  intros p l n i H. unfold app_node. simpl.
-  destruct (Nat.eqb_spec i (size p + length (l_nodes l))) as [->|Hne].
-  - rewrite (redir_get_ge p l) by (auto; lia).
+  intros p l n i H. rewrite !get_node_cons.
+  change (resolve (fst (app_node p l n) :: p) i) with (resolve (l :: p) i).
+  unfold app_node. cbn [fst l_nodes].
+  destruct (Nat.eqb_spec i (size (l :: p))) as [->|Hne].
+  - rewrite (resolve_ge (l :: p)) by (auto; lia). cbn [size].
     destruct (Nat.ltb_spec (size p + length (l_nodes l)) (size p)); [lia|].
     rewrite app_nth2 by lia. replace (size p + length (l_nodes l) - size p - length (l_nodes l)) with 0 by lia. reflexivity.
-  - set (i' := redir_get (l_redir l) i).
+  - set (i' := resolve (l :: p) i).
+    assert (Hi' : i' < size (l :: p) \/ size (l :: p) < i').
+    { destruct (Nat.lt_ge_cases i (size (l :: p))) as [Hlt|Hge].
+      - left. apply resolve_lt; assumption.
+      - right. unfold i'. rewrite (resolve_ge (l :: p)) by assumption. lia. }
+    cbn [size] in Hi'.
     destruct (Nat.ltb_spec i' (size p)); [reflexivity|].
-    destruct (Nat.lt_ge_cases (i' - size p) (length (l_nodes l))) as [Hlt|Hge].
-    + apply app_nth1. exact Hlt.
-    + rewrite (nth_overflow (l_nodes l)) by exact Hge.
-      destruct (Nat.eq_dec (i' - size p) (length (l_nodes l))) as [E|E].
-      * exfalso. assert (i' = size p + length (l_nodes l)) by lia.
-        destruct (redir_get_cases (l_redir l) i) as [E2|E2]; fold i' in E2.
-        -- lia.
-        -- apply H in E2. simpl in E2. lia.
-      * apply nth_overflow. rewrite app_length. simpl. lia.
+    destruct Hi' as [Hlt|Hgt].
+    + apply app_nth1. lia.
+    + rewrite (nth_overflow (l_nodes l)) by lia. apply nth_overflow. rewrite app_length. simpl. lia.
 Qed.
 
 Lemma size_app : forall p l n, size (fst (app_node p l n) :: p) = S (size (l :: p)).
@@ -98,7 +168,7 @@ Proof. reflexivity. Qed.
 
 Lemma redir_ok_app : forall p l n, redir_ok p l -> redir_ok p (fst (app_node p l n)).
 Proof.
-  intros p l n H k v Hin. unfold app_node in Hin. simpl in Hin. apply H in Hin.
+  intros p l n [H Hc]. split; [|exact Hc]. intros k v Hin. unfold app_node in Hin. simpl in Hin. apply H in Hin.
   rewrite size_app. lia.
 Qed.
 
@@ -118,10 +188,13 @@ Qed.
 
 Lemma get_node_set : forall p l di n i, redir_ok p l -> size p <= di < size (l :: p) ->
   get_node (set_node p l di n :: p) i =
-  if redir_get (l_redir l) i =? di then n else get_node (l :: p) i.
+  if resolve (l :: p) i =? di then n else get_node (l :: p) i.
 Proof.
   intros p l di n i H Hd. unfold set_node. destruct (Nat.ltb_spec di (size p)); [lia|].
-  simpl. set (i' := redir_get (l_redir l) i).
+  rewrite !get_node_cons.
+  change (resolve (mkL (list_set (di - size p) n (l_nodes l)) (l_heads l) (l_redir l) (l_err l) :: p) i)
+    with (resolve (l :: p) i).
+  cbn [l_nodes]. set (i' := resolve (l :: p) i).
   destruct (Nat.eqb_spec i' di) as [E|E].
   - rewrite E. destruct (Nat.ltb_spec di (size p)); [lia|].
     rewrite nth_list_set by (simpl in Hd; lia). rewrite Nat.eqb_refl. reflexivity.
@@ -154,31 +227,31 @@ Lemma get_node_set_head : forall p l s i j, get_node (set_head l s i :: p) j = g
 Proof. reflexivity. Qed.
 
 (* extension is transparent at the moment it is created *)
-Definition chain_ok (c : chain) : Prop :=
-  forall q l p, c = q ++ l :: p -> redir_ok p l.
-
 Lemma chain_ok_top : forall l p, chain_ok (l :: p) -> redir_ok p l.
-Proof. intros l p H. apply (H [] l p). reflexivity. Qed.
+Proof. intros l p H. exact H. Qed.
 
 Lemma chain_ok_tail : forall l p, chain_ok (l :: p) -> chain_ok p.
-Proof. intros l p H q l' p' E. apply (H (l :: q) l' p'). rewrite E. reflexivity. Qed.
+Proof. intros l p H. apply H. Qed.
 
 Lemma chain_ok_cons : forall l p, redir_ok p l -> chain_ok p -> chain_ok (l :: p).
-Proof.
-  intros l p H1 H2 q l' p' E. destruct q as [|x q]; simpl in E; inversion E; subst.
-  - exact H1.
-  - apply (H2 q l' p'). reflexivity.
-Qed.
+Proof. intros l p H1 H2. exact H1. Qed.
 
 Lemma get_node_beyond_chain : forall c i, chain_ok c -> size c <= i -> get_node c i = NEmpty.
 Proof.
   intros [|l p] i H Hi; [reflexivity|]. apply get_node_beyond; [apply chain_ok_top; exact H|exact Hi].
 Qed.
 
+Lemma resolve_extend : forall c i, chain_ok c -> resolve (extend c) i = resolve c i.
+Proof. intros c i H. unfold extend. rewrite resolve_cons. simpl. apply pre_resolve. exact H. Qed.
+
 Lemma get_node_extend : forall c i, chain_ok c -> get_node (extend c) i = get_node c i.
 Proof.
-  intros c i H. unfold extend. simpl. destruct (Nat.ltb_spec i (size c)); [reflexivity|].
-  rewrite get_node_beyond_chain by assumption. destruct (i - size c); reflexivity.
+  intros c i H. unfold extend. rewrite get_node_cons, resolve_cons. cbn [l_redir empty_layer redir_get l_nodes].
+  unfold pre. destruct (Nat.ltb_spec i (size c)) as [Hlt|Hge].
+  - pose proof (resolve_lt c i H Hlt) as Hr. destruct (Nat.ltb_spec (resolve c i) (size c)); [|lia].
+    apply get_node_resolve. exact H.
+  - destruct (Nat.ltb_spec i (size c)); [lia|].
+    rewrite get_node_beyond_chain by assumption. destruct (i - size c); reflexivity.
 Qed.
 
 Lemma get_head_extend : forall c s, get_head (extend c) s = get_head c s.
